@@ -503,6 +503,14 @@ fn one_story(ops: &[Value], tr: &mut Trace) -> String {
                         embassy_time::Timer::after_millis(op["ms"].as_u64().unwrap()).await;
                         rec["ok"] = json!(true);
                     }
+                    "KvFail" => {
+                        // the k-th mutating store operation from now on fails (returns an error, changes nothing);
+                        // not used by the registered histories yet (DESIGN.md 8.2)
+                        let mut s = kvs.borrow_mut();
+                        let at = s.n_mut + op["k"].as_u64().unwrap_or(0) as usize;
+                        s.fail_at = Some(at);
+                        rec["ok"] = json!(true);
+                    }
                     "CorruptResum" => {
                         // damage the persisted resumption cache (an optional cache): flip bytes / truncate
                         let mut s = kvs.borrow_mut();
